@@ -80,9 +80,10 @@ def showOut (s : State) : Out → String
 def newEvents (old new : State) : List Ev :=
   (new.log.take (new.log.length - old.log.length)).reverse
 
-/-- every object that could start a paced transfer during this read has a tick entry -/
+/-- every object that could start a paced transfer during this read (waiting, or in a slot and
+    requeued during the read) has a tick entry -/
 def ticksCover (s : State) (ticks : List (Nat × Nat)) : Bool :=
-  s.queue.all fun t =>
+  s.files.all fun t =>
     match getF s.objs t with
     | some f => !wantsTick f || ticks.any (fun p => p.1 == t)
     | none => true
